@@ -2,13 +2,15 @@
   PCV.Model.StreamKZG — `poly-commit/src/streaming_kzg/{mod,time,space}.rs` in exponent form
   (DESIGN §2.1, Appendix A "Streaming KZG").  A group element is its discrete log, an MSM is `dot`
   (truncating to the shorter operand, as `ark-ec` does), a pairing equation `e(A,B)=e(C,D)` is
-  `A*B = C*D`.  Core Lean only.
+  `A*B = C*D`.  Core Lean only.  The committers and provers assert that the key has a power for
+  every coefficient (fix D24) and answer `.error .abort` otherwise.
 
   Conventions.  A time-efficient polynomial is a little-endian coefficient list (`&[F]`), a
   space-efficient one is the big-endian stream (`Reverse(coeffs)` in the crate's tests).  The SRS of
   the time key is `powersOfG = [g, τg, τ²g, …]`; the stream key iterates it in reverse.
   `DensePolynomial` values are modelled up to high-order zero coefficients: they only ever reach an
-  MSM (which the zeros do not change) or `degree()` of a monic polynomial (whose vector is exact).
+  MSM (which the zeros do not change), `degree()` of a monic polynomial (whose vector is exact), or the
+  length assertion of `open_multi_points` / `commit` (where the model takes `pnorm` first).
   The MSM buffer size (`max_msm_buffer`) only chunks a sum (`ChunkedPippenger::add/finalize`) and
   does not occur in the model.
 -/
@@ -89,11 +91,23 @@ def linearCombination : List (List F) → List F → Option (List F)
 /-! ### time-efficient prover (`time.rs`) -/
 namespace Time
 
-/-- `CommitterKey::commit`: `msm(powers_of_g, polynomial)`. -/
-def commit (ck : CK F) (p : List F) : F := dot ck.powersOfG p
+/-- `CommitterKey::commit`: `assert!(powers_of_g.len() >= polynomial.len())` (fix D24: the MSM drops
+the coefficients that have no power, an oversize polynomial was committed as its truncation), then
+`msm(powers_of_g, polynomial)`. -/
+def commit (ck : CK F) (p : List F) : Except Err F :=
+  if ck.powersOfG.length < p.length then .error .abort
+  else .ok (dot ck.powersOfG p)
 
-/-- `batch_commit` -/
-def batchCommit (ck : CK F) (ps : List (List F)) : List F := ps.map (commit ck)
+/-- `batch_commit`: `map(|p| self.commit(p))`, so the first oversize polynomial aborts the batch. -/
+def batchCommit (ck : CK F) : List (List F) → Except Err (List F)
+  | [] => .ok []
+  | p :: ps =>
+    match commit ck p with
+    | .error e => .error e
+    | .ok c =>
+      match batchCommit ck ps with
+      | .error e => .error e
+      | .ok cs => .ok (c :: cs)
 
 /-- The loop of `CommitterKey::open` over `polynomial.iter().rev()`:
 `coefficient = c + previous * α; quotient.insert(0, coefficient)`. Returns the vector `quotient`. -/
@@ -102,12 +116,19 @@ def openLoop (α : F) : List F → F → List F → List F
   | c :: cs, previous, quotient =>
     openLoop α cs (c + previous * α) ((c + previous * α) :: quotient)
 
-/-- `CommitterKey::open`: `split_first` of the loop's vector (`unwrap_or((0, []))`), then the MSM of
-the tail with `powers_of_g`.  Returns `(evaluation, proof)`. -/
-def «open» (ck : CK F) (p : List F) (α : F) : F × F :=
+/-- The body of `CommitterKey::open` after its assertion: `split_first` of the loop's vector
+(`unwrap_or((0, []))`), then the MSM of the tail with `powers_of_g`.  Returns `(evaluation, proof)`. -/
+def openBody (ck : CK F) (p : List F) (α : F) : F × F :=
   match openLoop α p.reverse 0 [] with
   | [] => (0, dot ck.powersOfG [])
   | ev :: quotient => (ev, dot ck.powersOfG quotient)
+
+/-- `CommitterKey::open`: `assert!(powers_of_g.len() >= polynomial.len())` (fix D24: the quotient of an
+oversize polynomial was committed as its truncation), then the loop and the MSM (`openBody`).
+Returns `(evaluation, proof)`. -/
+def «open» (ck : CK F) (p : List F) (α : F) : Except Err (F × F) :=
+  if ck.powersOfG.length < p.length then .error .abort
+  else .ok (openBody ck p α)
 
 /-- `subtract a·(zs) from the first |zs| entries` of a big-endian remainder: one round of the inner
 `for` of `divide_with_q_and_r` (`remainder[cur_q_degree + i] -= cur_q_coeff * div_coeff`) and of the
@@ -142,20 +163,27 @@ def divideWithQAndR (p d : List F) : Except Err (List F × List F) :=
     let qr := divLoop (dBE.headD 0)⁻¹ dBE.tail ((pnorm p).length - (pnorm d).length + 1) (pnorm p).reverse
     .ok (pnorm qr.1.reverse, pnorm qr.2.reverse)
 
-/-- `CommitterKey::open_multi_points`: commit to the quotient by the vanishing polynomial. -/
+/-- `CommitterKey::open_multi_points`: `assert!(powers_of_g.len() >= polynomial.len())` on the
+coefficient slice as given (fix D24), then commit (`CommitterKey::commit`, with its own assertion) to
+the quotient by the vanishing polynomial. -/
 def openMultiPoints (ck : CK F) (p : List F) (pts : List F) : Except Err F :=
-  match divideWithQAndR p (vanishing pts) with
-  | .error e => .error e
-  | .ok qr => .ok (commit ck qr.1)
+  if ck.powersOfG.length < p.length then .error .abort
+  else
+    match divideWithQAndR p (vanishing pts) with
+    | .error e => .error e
+    | .ok qr => commit ck qr.1
 
 /-- `CommitterKey::batch_open_multi_points`: `assert!(eval_points.len() < powers_of_g2.len())`,
-`etas = powers(eval_chal, n)`, `linear_combination(..).unwrap_or([0])`, `open_multi_points`. -/
+`etas = powers(eval_chal, n)`, `linear_combination(..).unwrap_or([0])`, `open_multi_points`.
+The slice handed to `open_multi_points` is the coefficient vector of a `DensePolynomial` (every
+`DensePolynomial` operation of `linear_combination` ends with `truncate_leading_zeros`), so the
+length its assertion sees is the one without high-order zeros: `pnorm`. -/
 def batchOpenMultiPoints (ck : CK F) (ps : List (List F)) (pts : List F) (η : F) : Except Err F :=
   if ¬ (pts.length < ck.powersOfG2.length) then .error .abort
   else
     match linearCombination ps (powersOf η ps.length) with
     | none => openMultiPoints ck [0] pts
-    | some b => openMultiPoints ck b pts
+    | some b => openMultiPoints ck (pnorm b) pts
 
 end Div
 end Time
@@ -175,8 +203,9 @@ def openLoop (α : F) : List F → List F → F → F → F × F
   | s :: ss, b :: bs, previous, quotient => openLoop α ss bs (previous * α + s) (quotient + b * previous)
   | _, _, previous, quotient => (previous, quotient)
 
-/-- `CommitterKeyStream::open`: bases skipped by `powers_of_g.len() - polynomial.len()` (usize
-underflow aborts). -/
+/-- `CommitterKeyStream::open`: `assert!(powers_of_g.len() >= polynomial.len())` (explicit since fix
+D24; before it the refusal was only the `usize` underflow of the skip below, i.e. only with overflow
+checks compiled in), then the bases skipped by `powers_of_g.len() - polynomial.len()`. -/
 def «open» (ck : CKS F) (pBE : List F) (α : F) : Except Err (F × F) :=
   if ck.powersOfG.length < pBE.length then .error .abort
   else .ok (openLoop α pBE (ck.powersOfG.drop (ck.powersOfG.length - pBE.length)) 0 0)
